@@ -326,6 +326,7 @@ def integer_conversion(paths, with_pairs):
     conv_guard = set()
     loc = '?'
     skipped = None
+    discarded = None
     for p, pairs in with_pairs:
         vals = {id(v_): (k_, v_) for k_, v_, _ in pairs}
         n_stores = 0
@@ -343,6 +344,23 @@ def integer_conversion(paths, with_pairs):
                 n_stores += 1
         if n_attempts < n_stores and skipped is None:
             skipped = (n_stores, n_attempts)
+        # a value int() accepted is stored as that integer: conversions that succeeded = attempts - ValueErrors caught
+        n_failed = sum(1 for e2 in p.events if e2.kind == 'caught' and 'int()' in str(getattr(e2.data.get('raise'), 'note', '') or ''))
+        n_int_stores = 0
+        for ev in p.events:
+            if ev.kind == 'item-store':
+                x0 = ev.data['value']
+                conv_ = False
+                for _h in range(6):
+                    if isinstance(x0, Unk) and x0.src and x0.src[0] == 'call' and x0.src[1] == 'int':
+                        conv_ = True
+                        x0 = x0.src[2][0]
+                    elif isinstance(x0, Unk) and x0.src and x0.src[0] == 'method' and x0.src[2] == 'decode':
+                        x0 = x0.src[1]
+                if conv_ and id(x0) in vals:
+                    n_int_stores += 1
+        if n_attempts == n_stores and n_int_stores < n_attempts - n_failed and discarded is None:
+            discarded = (n_attempts - n_failed, n_int_stores)
     for p, pairs in with_pairs:
         vals = {id(v_): (k_, v_) for k_, v_, _ in pairs}
         for ev in p.events:
@@ -401,6 +419,10 @@ def integer_conversion(paths, with_pairs):
         out.append(('integer-conversion', False, 'on some accepting path %d option value(s) are stored but int() is attempted only %d '
                     'time(s): whether an integer-looking value is converted depends on something other than the value (e.g. its key)'
                     % skipped, loc))
+    elif discarded is not None:
+        out.append(('integer-conversion', False, 'on some accepting path int() succeeds for %d option value(s) but only %d converted value(s) are '
+                    'stored: whether an integer is delivered as an integer depends on how it is spelled (leading zeros, sign, underscores)'
+                    % discarded, loc))
     elif idiom == 'try-except' and has_str:
         out.append(('integer-conversion', True, 'int() attempted on every value under except ValueError: covers -?[0-9]+', loc))
     elif idiom == 'unguarded':
